@@ -423,6 +423,10 @@ def ref_spec(spec, v, leaf=None):
         trig = values.eval_expr(expr)
         if type(imgs[fname]) is type(trig) and imgs[fname] == trig:
             return _rej('post_init')
+    if post and post != 'count' and post[0] == 'raise_if_set':
+        # the hook looks at the record of SUPPLIED fields: it refuses instances where the named (defaulted) field was given
+        if post[1] in bound:
+            return _rej('post_init')
     return (OK, DcImage(leaf or spec['name'], imgs, set(bound)))
 
 
